@@ -112,6 +112,46 @@ func (r *Report) Floor(rule string, n int) {
 	}
 }
 
+// failing: number of obligations that are neither discharged nor listed as known findings.
+func (r *Report) failing(verifDir string) int {
+	known, _ := loadKnown(verifDir)
+	ks := map[string]bool{}
+	for _, k := range known {
+		if k.Status == "known" && k.Property == r.Prop {
+			ks[k.Rule+" @ "+k.Construct] = true
+		}
+	}
+	n := 0
+	for _, o := range r.Obs {
+		if o.Verdict == OK {
+			continue
+		}
+		if o.Verdict == Violation && ks[o.Key()] {
+			continue
+		}
+		n++
+	}
+	return n
+}
+
+// definiteViolations: violations that are not floor failures and not known findings.
+func (r *Report) definiteViolations(verifDir string) int {
+	known, _ := loadKnown(verifDir)
+	ks := map[string]bool{}
+	for _, k := range known {
+		if k.Status == "known" && k.Property == r.Prop {
+			ks[k.Rule+" @ "+k.Construct] = true
+		}
+	}
+	n := 0
+	for _, o := range r.Obs {
+		if o.Verdict == Violation && o.Construct != "VACUOUS" && !ks[o.Key()] {
+			n++
+		}
+	}
+	return n
+}
+
 func loadKnown(verifDir string) ([]KnownFinding, error) {
 	b, err := os.ReadFile(filepath.Join(verifDir, "known_findings.json"))
 	if err != nil {
